@@ -17,6 +17,9 @@ Batches == UNION {[1..n -> Writes] : n \in 1..MaxBatch}
 Init == ov = EmptyOv /\ obs = <<"nothing">>
 
 SetCells(batch) == ov' = Apply(ov, batch) /\ obs' = <<"set">>
+\* a set_cells call that names an invalid cell (unknown sheet, impossible coordinate) is rejected as a whole: nothing changes,
+\* whichever valid cells came before the invalid one in the batch
+RejectedSet == ov' = ov /\ obs' = <<"rejected">>
 Get(c)      == obs' = <<"get", c, Ev(c, ov)>> /\ UNCHANGED ov
 GetMany(cs) == obs' = <<"many", [i \in 1..Len(cs) |-> Ev(cs[i], ov)]>> /\ UNCHANGED ov
 GetSheet(s) == obs' = <<"sheet", s, Grid(s, ov)>> /\ UNCHANGED ov
@@ -24,6 +27,7 @@ GetSheet(s) == obs' = <<"sheet", s, Grid(s, ov)>> /\ UNCHANGED ov
 IsQuery == obs'[1] \in {"get", "many", "sheet"}
 
 Next == \/ \E b \in Batches : SetCells(b)
+        \/ RejectedSet
         \/ \E c \in AllCoords : Get(c)
         \/ \E s \in Sheets : GetSheet(s)
 
